@@ -258,7 +258,7 @@ func (g *treeGen) form() string {
 	if !g.forms {
 		return "native"
 	}
-	return []string{"native", "native", "alias", "walias", "ptr"}[g.rng.Intn(5)]
+	return []string{"native", "native", "alias", "walias", "xalias", "ptr"}[g.rng.Intn(6)]
 }
 
 func (g *treeGen) enc() []any {
